@@ -231,7 +231,8 @@ def check_meta(case, ctx):
 # ------------------------------------------------------------ object history
 
 HIST_EDITS = ["version", "locktime", "sequence", "prev_index", "amount", "out_script", "script_sig",
-              "add_output", "drop_output", "witness_set", "witness_inplace", "segwit_flag"]
+              "add_output", "drop_output", "witness_set", "witness_inplace", "segwit_flag",
+              "script_sig_inplace", "out_script_inplace"]
 HIST_QUERIES = ["id", "serialize", "serialize_legacy", "hash", "clone", "reparse"]
 
 
@@ -276,13 +277,20 @@ def check_objhist(case, ctx):
             elif what == "script_sig":
                 tx["ins"][ii]["script"] = list(tx["ins"][ii]["script"]) + toks([case["tok"]])
                 t.tx_ins[ii].script_sig = Script(list(tx["ins"][ii]["script"]))
-            elif what in ("amount", "out_script"):
+            elif what == "script_sig_inplace":
+                # the command list of the existing Script object is edited in place
+                tx["ins"][ii]["script"] = list(tx["ins"][ii]["script"]) + toks([case["tok"]])
+                t.tx_ins[ii].script_sig.commands.append(toks([case["tok"]])[0])
+            elif what in ("amount", "out_script", "out_script_inplace"):
                 if not tx["outs"]:
                     continue
                 oi = i % len(tx["outs"])
                 if what == "amount":
                     tx["outs"][oi]["amount"] = v
                     t.tx_outs[oi].amount = v
+                elif what == "out_script_inplace":
+                    tx["outs"][oi]["script"] = toks([case["tok"]]) + list(tx["outs"][oi]["script"])
+                    t.tx_outs[oi].script_pubkey.commands.insert(0, toks([case["tok"]])[0])
                 else:
                     tx["outs"][oi]["script"] = list(tx["outs"][oi]["script"]) + toks([case["tok"]])
                     t.tx_outs[oi].script_pubkey = Script(list(tx["outs"][oi]["script"]))
